@@ -218,6 +218,7 @@ Plan generate(Rng &rng, const Opts &opts, uint64_t runIndex)
             if (keep != 0) {
                 p.steps.push_back(mk(0, "RESOLVE")); // the same call again while the fault is still there
             }
+            p.steps.push_back(mk(0, "QUERY")); // the client looks at the model and asks the library what it holds
             long repair = (slot / 3) % 4; // files restored, then: fresh importer, removeAllModels, or the same importer untouched;
                                           // or (3) files left as they are and a corrected model handed to the same importer's library
             if (repair == 3 && f.file > 0) {
@@ -303,6 +304,8 @@ Plan generate(Rng &rng, const Opts &opts, uint64_t runIndex)
             }
         } else if (r < 96) {
             p.steps.push_back(mk(task, "ADDMODEL", {long(rng.below(g.files.size())), long(rng.below(8))}));
+        } else if (r < 98) {
+            p.steps.push_back(mk(task, "SETSTRICT", {long(rng.below(2))}));
         } else {
             p.steps.push_back(mk(task, "QUERY"));
         }
@@ -962,6 +965,26 @@ void execute(const Plan &plan, Ctx &ctx)
             ctx.ev("IMPORTER task " + str(t) + " strict=" + str(c.imp->strict));
             continue;
         }
+        if (s.op == "SETSTRICT") {
+            if (c.imp != nullptr) {
+                ctx.begin(stepNo, "SETSTRICT", "");
+                ++epoch;
+                c.imp->strict = s.arg(0) % 2 != 0;
+                c.imp->importer->setStrict(c.imp->strict);
+                if (c.imp->importer->isStrict() != c.imp->strict) {
+                    ctx.violate("C07", "strict-flag-not-taken", "", "isStrict() does not return what setStrict() was given");
+                    return;
+                }
+                for (auto &cl : clients) {
+                    if (cl.imp == c.imp) {
+                        cl.haveVerdict = false;
+                    }
+                }
+                ctx.count("importer_mode_switched_after_creation");
+                ctx.ev("SETSTRICT " + str(c.imp->strict));
+            }
+            continue;
+        }
         if (s.op == "SHARE") {
             ++epoch;
             if (clients[0].imp != nullptr) {
@@ -1136,7 +1159,8 @@ void execute(const Plan &plan, Ctx &ctx)
                 libAtStart[np] = it->second;
                 libRawAtStart[key] = it->second;
                 const FileVersion *cur = w.vfs.at(np);
-                if (cur == nullptr || cur->id != it->second) {
+                const FileVersion &heldVersion = w.vfs.versions[size_t(it->second)];
+                if (cur == nullptr || cur->id != (heldVersion.originId >= 0 ? heldVersion.originId : heldVersion.id)) {
                     stale = true;
                 }
             }
@@ -1224,6 +1248,13 @@ void execute(const Plan &plan, Ctx &ctx)
                     // a file that could not be parsed as XML is reported and never kept
                     ctx.violate("C07", "library-kept-unparseable-file", w.vfs.versions[size_t(ver)].tag, "the importer's library now holds '" + key + "' although what was served for it is not well-formed XML (" + w.vfs.versions[size_t(ver)].tag + "): a repaired file would never be read again");
                     return;
+                }
+                if (w.vfs.versions[size_t(ver)].load == Load::CELLML11 || w.vfs.versions[size_t(ver)].load == Load::NOISY11) {
+                    // what a 1.x document became depends on the mode it was read in: remembered with the library entry
+                    FileVersion held = w.vfs.versions[size_t(ver)];
+                    held.parsedStrict = imp.strict ? 1 : 0;
+                    held.originId = ver;
+                    ver = w.vfs.registerVersion(held);
                 }
                 imp.refLibrary[key] = ver;
                 imp.refSeq[key] = ++imp.seq;
@@ -1419,6 +1450,25 @@ void execute(const Plan &plan, Ctx &ctx)
             bool a = c.root->hasUnresolvedImports(), b = c.root->hasImports(), d = c.root->isDefined();
             auto req = c.root->importRequirements();
             ctx.ev("QUERY " + str(a) + str(b) + str(d) + " req=" + str(req.size()));
+            // asking the library about URLs (known or not) is a question, not an edit
+            {
+                size_t before = imp.importer->libraryCount();
+                for (auto &f : w.pristine.files) {
+                    for (const std::string &key : {f.path, relativeDir(w.vfs.cwd, f.dir) + f.path.substr(f.dir.size()), std::string("no_such_dir/") + f.path.substr(f.dir.size())}) {
+                        auto m = imp.importer->library(key);
+                        bool held = imp.refLibrary.count(key) != 0;
+                        if ((m != nullptr) != held) {
+                            ctx.violate("C07", "library-lookup-incoherent", held ? "key-held" : "key-not-held", "library('" + key + "') returned " + (m != nullptr ? "a model" : "null") + " but the library " + (held ? "holds" : "does not hold") + " that key");
+                            return;
+                        }
+                    }
+                }
+                if (imp.importer->libraryCount() != before) {
+                    ctx.violate("C07", "library-lookup-changed-library", "", "library(key) lookups changed libraryCount() from " + str(before) + " to " + str(imp.importer->libraryCount()));
+                    return;
+                }
+                ctx.count("library_lookups_by_key");
+            }
             for (size_t i = 0; i <= imp.importer->libraryCount(); ++i) {
                 auto m = imp.importer->library(i);
                 if ((m == nullptr) != (i >= imp.importer->libraryCount())) {
